@@ -63,6 +63,12 @@ BLIND = {  # did the owning check exist, unchanged, before the change was seen?
     'b11-C10': 'yes - caught (C10.R7 loaded-statistics variant, C09.R10)',
     'b11-C11': 'yes - caught (C11.R5 add table: scope order)',
     'b11-C17': 'yes - caught (C17.R2 / C17.R12 parameter laws for all-negative ranges; C04.R7)',
+    'b13-C05': 'yes - caught (C05.R10 = C03.R13 = C04.R12: the constant is stored quantized but carries no data)',
+    'b13-C08': 'yes - caught (whole-pipeline simulation: plan generation raises IndexError for a FULLY_CONNECTED without a bias operand; C08.R8 = C03.R14 = C01.R16 = C02.R9)',
+    'b13-C09': 'yes - MISSED (the stand-in model had no state); the calibration simulation C09.R11 now runs a stateful stand-in: a carry-over shifts the next sample unless the variables are reset per sample',
+    'b13-C13': 'yes - only an internal error of the interpreter (a for loop over an enum class), exit 2 on every check; enum classes are iterable now and C13.R1 (accepted set == expansion of the policy text) reports it; twin: the same feature with re.fullmatch',
+    'b13-C15': 'yes - MISSED by C15 (C01 / C02 reported it through construction rules and undecided rewrites); C15.R10: tied constants (two tensors on one buffer, one tensor with several readers, two subgraphs) through the whole pipeline under equal / different / no quantization of the sharers',
+    'b13-C16': 'yes - caught by the construction rules C16.R3 / R4; the layout table could not be interpreted (its model had no subgraphs). Its model now has buffers of every role (read by an operator, constant graph output, metadata, unreferenced) and C16.R6 reports the unaligned placeholder offsets',
     'b12-C02': 'yes - C01.R3 caught it; the owning check C02 reported only by accident (stand-in tensors had no shapeSignature: AttributeError). Stand-ins now have every schema field with its default; C02.R7 / C02.R9 compare the shapes of inserted and original tensors on graphs with dynamic dimensions',
     'b12-C03': 'yes - reported, but only by the anchor test of C03.R6 ("cannot find the single branch that selects weight_tensor_config"), i.e. by not recognising the code. C03.R6 is now a table over the registry: a probe in place of the parameter computation records which configuration every operand is quantized with, with collected and with missing statistics',
     'b12-C12': 'yes - caught (C11.R6 load == documented adds in list order; C12.R7 session round trip)',
